@@ -20,7 +20,7 @@ import (
 type world struct {
 	r                    *vh.Rng
 	pods                 map[int64]*cachectl.PodSpec
-	nodes                map[int64]*sched.NodeSpec
+	nodes                map[int64]*cachectl.NodeX
 	pgs                  map[int64]*cachectl.PGSpec
 	queues               map[int64]bool
 	uid                  int64
@@ -33,7 +33,7 @@ type world struct {
 }
 
 func newWorld(r *vh.Rng) *world {
-	return &world{r: r, pods: map[int64]*cachectl.PodSpec{}, nodes: map[int64]*sched.NodeSpec{}, pgs: map[int64]*cachectl.PGSpec{},
+	return &world{r: r, pods: map[int64]*cachectl.PodSpec{}, nodes: map[int64]*cachectl.NodeX{}, pgs: map[int64]*cachectl.PGSpec{},
 		queues: map[int64]bool{}, ack: map[int64]bool{}, gone: map[int64]bool{}, nPods: int64(r.Range(2, 6)), nNodes: int64(r.Range(1, 3)), nJobs: int64(r.Range(1, 3))}
 }
 
@@ -121,10 +121,40 @@ func (w *world) step(cycle bool, nodeChurn int) {
 		delete(w.gone, id)
 	case k < 60: // node add / update
 		id := int64(r.Range(1, int(w.nNodes)))
-		n := &sched.NodeSpec{ID: id, Has: true, CPU: vh.Pick(r, []int64{1000, 4000, 8000}), Mem: vh.Pick(r, []int64{1 << 28, 1 << 30, 1 << 32}),
-			Pods: int64(r.Range(1, 8))}
-		if r.Chance(1, 3) {
-			n.GPU = int64(r.Range(1, 4))
+		n, known := w.nodes[id]
+		if known && r.Chance(1, 2) {
+			// only labels / annotations / spec / conditions change: status.allocatable stays as it is
+			switch r.Intn(8) {
+			case 0, 1:
+				n.OverNode, n.OverCPUSet, n.OverCPU = true, true, vh.Pick(r, []int64{0, 500, 1000, 2000})
+			case 2:
+				n.OverNode, n.OverMemSet, n.OverMem = true, true, vh.Pick(r, []int64{0, 1 << 20, 1 << 28})
+			case 3:
+				// the annotations disappear (oversubscription switched off on the node)
+				n.OverCPUSet, n.OverMemSet = false, false
+				n.OverNode = !n.OverNode
+			case 4:
+				n.Offline = !n.Offline
+			case 5:
+				n.Zone = int64(r.Range(0, 2))
+			case 6:
+				n.Unsched, n.Tainted = r.Chance(1, 2), r.Chance(1, 2)
+			default:
+				n.NotRdy = !n.NotRdy
+			}
+		} else {
+			old := n
+			n = &cachectl.NodeX{NodeSpec: sched.NodeSpec{ID: id, Has: true, CPU: vh.Pick(r, []int64{1000, 4000, 8000}),
+				Mem: vh.Pick(r, []int64{1 << 28, 1 << 30, 1 << 32}), Pods: int64(r.Range(1, 8))}}
+			if r.Chance(1, 3) {
+				n.GPU = int64(r.Range(1, 4))
+			}
+			if known { // a resource update keeps the rest of the object
+				n.OverCPUSet, n.OverCPU, n.OverMemSet, n.OverMem = old.OverCPUSet, old.OverCPU, old.OverMemSet, old.OverMem
+				n.OverNode, n.Offline, n.Zone, n.Unsched, n.Tainted, n.NotRdy = old.OverNode, old.Offline, old.Zone, old.Unsched, old.Tainted, old.NotRdy
+			} else if r.Chance(1, 2) {
+				n.OverNode, n.OverCPUSet, n.OverCPU = true, true, vh.Pick(r, []int64{500, 1000})
+			}
 		}
 		w.nodes[id] = n
 		w.emit(opT{Code: 3, Node: *n})
@@ -142,6 +172,8 @@ func (w *world) step(cycle bool, nodeChurn int) {
 		}
 		g.Queue = int64(r.Range(0, 3))
 		g.Min = int64(r.Range(0, 3))
+		g.Conds = int64(r.Range(0, 2)) // conditions written back by earlier cycles
+		g.Ann = r.Chance(1, 2)
 		w.emit(opT{Code: 5, PG: *g})
 	case k < 83: // PodGroup delete
 		id := 1 + int64(r.Range(1, int(w.nJobs)))
@@ -279,11 +311,20 @@ func describe(ops []opT) any {
 		case 2:
 			out = append(out, fmt.Sprintf("delpod t%d", o.A[0]))
 		case 3:
-			out = append(out, fmt.Sprintf("node n%d cpu=%d pods=%d gpu=%d", o.Node.ID, o.Node.CPU, o.Node.Pods, o.Node.GPU))
+			n := o.Node
+			d := fmt.Sprintf("node n%d cpu=%d pods=%d gpu=%d", n.ID, n.CPU, n.Pods, n.GPU)
+			if n.OverCPUSet {
+				d += fmt.Sprintf(" over-cpu=%d", n.OverCPU)
+			}
+			if n.OverMemSet {
+				d += fmt.Sprintf(" over-mem=%d", n.OverMem)
+			}
+			d += fmt.Sprintf(" flags=%d%d z%d %d%d%d", vh.B(n.OverNode), vh.B(n.Offline), n.Zone, vh.B(n.Unsched), vh.B(n.Tainted), vh.B(n.NotRdy))
+			out = append(out, d)
 		case 4:
 			out = append(out, fmt.Sprintf("delnode n%d", o.A[0]))
 		case 5:
-			out = append(out, fmt.Sprintf("pg j%d uid=%d q=%d min=%d", o.PG.ID, o.PG.UID, o.PG.Queue, o.PG.Min))
+			out = append(out, fmt.Sprintf("pg j%d uid=%d q=%d min=%d conds=%d ann=%v", o.PG.ID, o.PG.UID, o.PG.Queue, o.PG.Min, o.PG.Conds, o.PG.Ann))
 		case 6:
 			out = append(out, fmt.Sprintf("delpg j%d", o.A[0]))
 		case 7:
@@ -331,10 +372,10 @@ func nontrivial(ops []opT) bool {
 func gen(rng *vh.Rng, n int, emit func(id string, sel int, in []int64, kind string, nontrivial bool, desc any)) {
 	// the witness history of finding F4 (node removed and re-added under a running pod), always first
 	f4 := []opT{
-		{Code: 3, Node: sched.NodeSpec{ID: 1, Has: true, CPU: 8000, Mem: 1 << 30, Pods: 10}},
+		{Code: 3, Node: cachectl.NodeX{NodeSpec: sched.NodeSpec{ID: 1, Has: true, CPU: 8000, Mem: 1 << 30, Pods: 10}}},
 		{Code: 1, Pod: cachectl.PodSpec{ID: 1, Job: 2, Node: 1, Phase: 2, Role: 1, CPU: 2000, Mem: 1 << 20}},
 		{Code: 4, A: []int64{1}},
-		{Code: 3, Node: sched.NodeSpec{ID: 1, Has: true, CPU: 8000, Mem: 1 << 30, Pods: 10}},
+		{Code: 3, Node: cachectl.NodeX{NodeSpec: sched.NodeSpec{ID: 1, Has: true, CPU: 8000, Mem: 1 << 30, Pods: 10}}},
 		{Code: 10}, {Code: 9},
 	}
 	emit("f4-node-readd", 1, encCase(f4), "fixed", true, describe(f4))
@@ -342,7 +383,7 @@ func gen(rng *vh.Rng, n int, emit func(id string, sel int, in []int64, kind stri
 
 	// a pre-bind failure (status update succeeding) must be repaired by the resync it queues
 	pb := []opT{
-		{Code: 3, Node: sched.NodeSpec{ID: 1, Has: true, CPU: 4000, Mem: 1 << 30, Pods: 10}},
+		{Code: 3, Node: cachectl.NodeX{NodeSpec: sched.NodeSpec{ID: 1, Has: true, CPU: 4000, Mem: 1 << 30, Pods: 10}}},
 		{Code: 5, PG: cachectl.PGSpec{ID: 2, UID: 1, Queue: 1, Min: 1}},
 		{Code: 1, Pod: cachectl.PodSpec{ID: 1, Job: 2, Phase: 1, Role: 1, CPU: 1000, Mem: 1 << 20}},
 		{Code: 11, A: []int64{2, 1, 1}, F: 2},
@@ -352,7 +393,7 @@ func gen(rng *vh.Rng, n int, emit func(id string, sel int, in []int64, kind stri
 	emit("prebind-fails", 1, encCase(pb), "fixed", true, describe(pb))
 	// a failed bind whose pod is gone from the API server when the resync runs
 	gonePod := []opT{
-		{Code: 3, Node: sched.NodeSpec{ID: 1, Has: true, CPU: 4000, Mem: 1 << 30, Pods: 10}},
+		{Code: 3, Node: cachectl.NodeX{NodeSpec: sched.NodeSpec{ID: 1, Has: true, CPU: 4000, Mem: 1 << 30, Pods: 10}}},
 		{Code: 5, PG: cachectl.PGSpec{ID: 2, UID: 1, Queue: 1, Min: 1}},
 		{Code: 1, Pod: cachectl.PodSpec{ID: 1, Job: 2, Phase: 1, Role: 1, CPU: 1000, Mem: 1 << 20}},
 		{Code: 11, A: []int64{2, 1, 1}, F: 0},
@@ -362,6 +403,38 @@ func gen(rng *vh.Rng, n int, emit func(id string, sel int, in []int64, kind stri
 		{Code: 10}, {Code: 9},
 	}
 	emit("resync-finds-no-pod", 1, encCase(gonePod), "fixed", true, describe(gonePod))
+
+	// the oversold amount of a node changes while status.allocatable stays the same: the ledger must follow
+	nx := func(over int64) cachectl.NodeX {
+		return cachectl.NodeX{NodeSpec: sched.NodeSpec{ID: 1, Has: true, CPU: 4000, Mem: 1 << 30, Pods: 10},
+			OverNode: true, OverCPUSet: true, OverCPU: over}
+	}
+	ov := []opT{
+		{Code: 3, Node: nx(1000)},
+		{Code: 1, Pod: cachectl.PodSpec{ID: 1, Job: 2, Node: 1, Phase: 2, Role: 1, CPU: 1000, Mem: 1 << 20}},
+		{Code: 3, Node: nx(3000)},
+		{Code: 10}, {Code: 9},
+	}
+	emit("oversubscription-amount-changes", 1, encCase(ov), "fixed", true, describe(ov))
+	// the oversubscription annotation is removed: the oversold amount must go with it (fixed by d373588)
+	plain := cachectl.NodeX{NodeSpec: sched.NodeSpec{ID: 1, Has: true, CPU: 4000, Mem: 1 << 30, Pods: 10}}
+	orm := []opT{
+		{Code: 3, Node: nx(2000)},
+		{Code: 1, Pod: cachectl.PodSpec{ID: 1, Job: 2, Node: 1, Phase: 2, Role: 1, CPU: 1000, Mem: 1 << 20}},
+		{Code: 3, Node: plain},
+		{Code: 13},
+		{Code: 10}, {Code: 9},
+	}
+	emit("oversubscription-annotation-removed", 1, encCase(orm), "fixed", true, describe(orm))
+	// a PodGroup that already carries conditions; the cycle refreshes them in its snapshot
+	pc := []opT{
+		{Code: 7, A: []int64{1}},
+		{Code: 5, PG: cachectl.PGSpec{ID: 2, UID: 1, Queue: 1, Min: 1, Conds: 2, Ann: true}},
+		{Code: 1, Pod: cachectl.PodSpec{ID: 1, Job: 2, Phase: 1, Role: 1, CPU: 1000, Mem: 1 << 20}},
+		{Code: 13},
+		{Code: 10}, {Code: 9},
+	}
+	emit("snapshot-podgroup-conditions", 1, encCase(pc), "fixed", true, describe(pc))
 
 	for i := 0; i < n; i++ {
 		r := rng.Fork()
